@@ -250,7 +250,13 @@ func (h *httpServer) checkIPWhitelist(addr string) bool {
 	if ip.IsLoopback() {
 		return true
 	}
-	whitelist := h.cfg.GetModuleConfig().RPC.Whitelist
+	rpcCfg := h.cfg.GetModuleConfig().RPC
+	// consistent with rpc.InitIPWhitelist: "whitlist" is the legacy key of "whitelist",
+	// it is used when "whitelist" is not set or when it is the "*" wildcard
+	whitelist := rpcCfg.Whitelist
+	if len(whitelist) == 0 || (len(rpcCfg.Whitlist) == 1 && rpcCfg.Whitlist[0] == "*") {
+		whitelist = rpcCfg.Whitlist
+	}
 	// "*" means allow all IPs, consistent with rpc.InitIPWhitelist
 	if len(whitelist) == 0 || (len(whitelist) == 1 && whitelist[0] == "*") {
 		return true
